@@ -59,7 +59,9 @@ var props = map[string]propInfo{
 	"C19": {Engine: "bgp", Quick: 1200, Thorough: 30000},
 	"C21": {Engine: "bgp", Quick: 800, Thorough: 20000},
 	"C22": {Engine: "bgp", Quick: 500, Thorough: 10000, BatchSize: 20},
+	"C23": {Engine: "bgp", Quick: 1200, Thorough: 30000},
 	"C24": {Engine: "bgp", Quick: 1500, Thorough: 40000},
+	"C25": {Engine: "bgp", Quick: 1000, Thorough: 30000},
 	"C20": {Engine: "bgp", Quick: 1500, Thorough: 40000},
 }
 
